@@ -100,3 +100,85 @@ fn der_readers_total() {
     let mut rd = &data[..len];
     let _ = rd.read_integer_u64(bl);
 }
+
+// ---- the TLV layer: BasicWriter / BasicReader (rw/der.rs) for the kinds it implements (number, enumerated, boolean)
+use asn1rs::descriptor::{common, enumerated, numbers, Reader, Writer};
+use asn1rs::rw::{BasicReader, BasicWriter};
+
+pub struct En<const N: u64, const STD: u64, const EXT: bool>(pub u64);
+impl<const N: u64, const STD: u64, const EXT: bool> common::Constraint for En<N, STD, EXT> {
+    const TAG: Tag = Tag::DEFAULT_ENUMERATED;
+}
+impl<const N: u64, const STD: u64, const EXT: bool> enumerated::Constraint for En<N, STD, EXT> {
+    const NAME: &'static str = "En";
+    const VARIANT_COUNT: u64 = N;
+    const STD_VARIANT_COUNT: u64 = STD;
+    const EXTENSIBLE: bool = EXT;
+    fn to_choice_index(&self) -> u64 {
+        self.0
+    }
+    fn from_choice_index(index: u64) -> Option<Self> {
+        if index < N { Some(En(index)) } else { None }
+    }
+}
+
+fn enum_rt<const N: u64, const STD: u64, const EXT: bool>() {
+    let idx: u64 = kani::any();
+    kani::assume(idx < N);
+    let mut w = BasicWriter::from(Vec::<u8>::new());
+    w.write_enumerated(&En::<N, STD, EXT>(idx)).unwrap();
+    let buf = w.into_inner();
+    let mut r = BasicReader::from(&buf[..]);
+    let back = r.read_enumerated::<En<N, STD, EXT>>();
+    match back {
+        Ok(v) => assert_eq!(v.0, idx),
+        Err(_) => panic!("enumerated index written by the DER writer is not read back"),
+    }
+    assert_eq!(r.into_inner().len(), 0);
+    std::mem::forget(buf);
+}
+
+/// every index of a plain and of an extensible ENUMERATED (root and additions) round trips through BasicWriter/BasicReader
+#[kani::proof]
+#[kani::unwind(12)]
+fn der_enumerated_roundtrip() {
+    enum_rt::<3, 3, false>();
+    enum_rt::<5, 2, true>();
+}
+
+/// same with indices that need two and three content octets
+#[kani::proof]
+#[kani::unwind(12)]
+fn der_enum_wide_roundtrip() {
+    enum_rt::<300, 1, true>();
+    enum_rt::<70000, 65000, true>();
+}
+
+pub struct I64C;
+impl common::Constraint for I64C {
+    const TAG: Tag = Tag::DEFAULT_INTEGER;
+}
+impl numbers::Constraint<i64> for I64C {}
+impl numbers::Constraint<u64> for I64C {}
+
+/// INTEGER TLV through BasicWriter/BasicReader for all i64 and all u64
+#[kani::proof]
+#[kani::unwind(12)]
+fn der_number_tlv_roundtrip() {
+    let v: i64 = kani::any();
+    let mut w = BasicWriter::from(Vec::<u8>::new());
+    w.write_number::<i64, I64C>(v).unwrap();
+    let buf = w.into_inner();
+    let mut r = BasicReader::from(&buf[..]);
+    assert_eq!(r.read_number::<i64, I64C>().ok(), Some(v));
+    assert_eq!(r.into_inner().len(), 0);
+    std::mem::forget(buf);
+    let u: u64 = kani::any();
+    let mut w = BasicWriter::from(Vec::<u8>::new());
+    w.write_number::<u64, I64C>(u).unwrap();
+    let buf = w.into_inner();
+    let mut r = BasicReader::from(&buf[..]);
+    assert_eq!(r.read_number::<u64, I64C>().ok(), Some(u));
+    assert_eq!(r.into_inner().len(), 0);
+    std::mem::forget(buf);
+}
